@@ -418,7 +418,8 @@ def run(ctx, res):
     longest = 0.0
     pairs_nontrivial = 0
     first = True
-    while pos < len(order) and (first or time.time() - t0 + longest < budget):
+    # the first two chunks run whatever the clock says (the coverage floor of report.py must not depend on load)
+    while pos < len(order) and (first or pos < 2 * chunk or time.time() - t0 + longest < budget):
         first = False
         tc = time.time()
         sel = order[pos:pos + chunk]
